@@ -270,6 +270,154 @@ def acquire_facts(f) -> dict:
     return facts
 
 
+def rule_takeover(ctx, rule):
+    """Forced take-over of a stale lock in acquire():
+
+    (a) a waiter removes somebody's lock only after *it* has watched the same lock, unchanged, for a
+        full grace period measured on its own monotonic clock: the removal is dominated by the stale
+        edge of `time.monotonic() - T > self.grace_period`, T is only ever assigned time.monotonic(),
+        T is restarted whenever the observed st_mtime of the lock differs from the remembered one,
+        and the lock is stat-ed again in every iteration before the test;
+    (b) the removal is bound to the lock that was judged stale (identity re-validated after the
+        rename, or the observed identity handed to the removal routine) - path-based removal lets a
+        second waiter delete the fresh lock of the first one.
+    """
+    p = ctx.program
+    n_cls = 0
+    for cls in lock_classes(p):
+        f = cls.methods.get("acquire")
+        if f is None:
+            continue
+        n_cls += 1
+        g = CFG(f.node, name=f.qualname)
+        defs = single_defs(f.node)
+        pm = parent_map(f.node)
+        # removal calls on the take-over path: self.release() (or unlink/rename of the lock file)
+        # lexically inside an `except OSError` handler
+        takeover = []
+        for n in g.stmt_nodes():
+            for c in n.calls():
+                is_rm = self_attr(c.func) == "release" or (dotted(c.func) in ("os.unlink", "os.remove", "os.rename") and c.args
+                                                            and "_lock_file" in norm(c.args[0]))
+                if not is_rm:
+                    continue
+                anc = [a for a in ancestors(c, pm) if isinstance(a, ast.ExceptHandler)]
+                if anc and "OSError" in handler_names(anc[0].type) and "BaseException" not in handler_names(anc[0].type):
+                    takeover.append((n, c))
+        if not takeover:
+            # a lock class without forced take-over has nothing to show here
+            ctx.ok(rule, f.short, "no-forced-takeover", how="acquire never removes an existing lock", nontrivial=False)
+            continue
+
+        def stale_atom(e):
+            a = cmp_atom(e)
+            if a is None:
+                return None
+            l, op, r = a
+            if r == "self.grace_period" and l.startswith("time.monotonic() - "):
+                return True if op in (ast.Gt, ast.GtE) else (False if op in (ast.Lt, ast.LtE) else None)
+            if l == "self.grace_period" and r.startswith("time.monotonic() - "):
+                return True if op in (ast.Lt, ast.LtE) else (False if op in (ast.Gt, ast.GtE) else None)
+            return None
+        stale_edges, tvars, stale_tests = [], set(), []
+        for t in g.stmt_nodes():
+            if t.kind != "test":
+                continue
+            e = resolve(t.expr, {k: v for k, v in defs.items() if "monotonic" not in norm(v)}, depth=2)
+            pol = edges_where(e, stale_atom)
+            for k, m in t.succ:
+                if pol.get(k) is True:
+                    stale_edges.append((t, k, m))
+                    stale_tests.append(t)
+            for x in ast.walk(e):
+                a = cmp_atom(x) if isinstance(x, ast.Compare) else None
+                if a:
+                    for side in (a[0], a[2]):
+                        if side.startswith("time.monotonic() - "):
+                            tvars.add(side[len("time.monotonic() - "):])
+        for n, c in takeover:
+            ok = bool(stale_edges) and g.dominated_by(n, [], stale_edges)
+            ctx.check(ok, rule, f.short, "takeover-after-observed-grace-period",
+                      message=f"{cls.name}.acquire can remove an existing lock without having found `time.monotonic() - <start of observation> > self.grace_period`: "
+                              f"staleness judged from anything else (file age on the wall clock, mtime of the link target) lets a waiter delete a lock that was "
+                              f"taken a moment ago - two workers then hold the lock",
+                      how="removal dominated by the stale edge of the monotonic elapsed-time test", where=where(f, c))
+        if not stale_edges:
+            continue
+        ctx.check(len(tvars) == 1 and all(v.isidentifier() for v in tvars), rule, f.short, "observation-start-is-a-local",
+                  message=f"elapsed time is measured from {sorted(tvars)}", how="one local holds the start of the observation")
+        if len(tvars) != 1:
+            continue
+        T = next(iter(tvars))
+        asg = [n for n in g.stmt_nodes() if n.kind == "stmt" and isinstance(n.ast, ast.Assign) and any(isinstance(t, ast.Name) and t.id == T for t in n.ast.targets)]
+        ctx.check(bool(asg) and all(norm(n.ast.value) == "time.monotonic()" for n in asg), rule, f.short, "observation-start-from-monotonic-clock",
+                  message=f"`{T}` is assigned {sorted({norm(n.ast.value) for n in asg})}: the observation must start at a reading of this process's monotonic clock",
+                  how="every assignment is time.monotonic()")
+        # restart of the observation when the lock changed
+        def is_mtime(e):
+            r = resolve(e, defs)
+            return any(isinstance(x, ast.Attribute) and x.attr in ("st_mtime", "st_mtime_ns", "st_ino", "st_ctime", "st_ctime_ns") and isinstance(x.value, ast.Call)
+                       and dotted(x.value.func) in ("os.stat", "os.lstat") and x.value.args and "_lock_file" in norm(x.value.args[0]) for x in ast.walk(r))
+        ne_edges, remembered = [], set()
+        for t in g.stmt_nodes():
+            if t.kind != "test":
+                continue
+            def ne_atom(e):
+                a = cmp_atom(e)
+                if a is None or not isinstance(e, ast.Compare):
+                    return None
+                l, r = e.left, e.comparators[0]
+                if a[1] in (ast.NotEq, ast.Eq) and (is_mtime(l) != is_mtime(r)):
+                    other = r if is_mtime(l) else l
+                    if isinstance(other, ast.Name):
+                        remembered.add(other.id)
+                        return a[1] is ast.NotEq
+                return None
+            pol = edges_where(t.expr, ne_atom)
+            for k, m in t.succ:
+                if pol.get(k) is True:
+                    ne_edges.append((t, k, m))
+        heads = [t for t in g.stmt_nodes() if t.kind == "test" and isinstance(t.ast, ast.While)]
+        in_loop = [n for n in asg if heads and any(n in g.reachable([m for k, m in h.succ if k == "t"]) for h in heads)]
+        ok = bool(ne_edges) and bool(in_loop) and all(g.dominated_by(n, [], ne_edges) for n in in_loop)
+        ctx.check(ok, rule, f.short, "observation-restarts-when-lock-changes",
+                  message=f"`{T}` is not restarted exactly when the lock's st_mtime differs from the remembered one: a lock that was released and re-taken by "
+                          f"others while this worker waited would be counted as one stale lock", how="in-loop assignment dominated by the `mtime != remembered` edge")
+        upd = [n for n in g.stmt_nodes() if n.kind == "stmt" and isinstance(n.ast, ast.Assign) and any(isinstance(t, ast.Name) and t.id in remembered for t in n.ast.targets)
+               and is_mtime(n.ast.value)]
+        ok = bool(upd) and all(g.dominated_by(n, [], ne_edges) for n in upd)
+        ctx.check(ok, rule, f.short, "remembered-mtime-updated-with-restart",
+                  message="the remembered st_mtime is not updated together with the restart of the observation", how="`remembered = current` under the same edge")
+        # the lock is looked at again in every iteration before staleness is judged
+        stat_nodes = [n for n in g.stmt_nodes() if any(dotted(c.func) in ("os.stat", "os.lstat") and c.args and "_lock_file" in norm(c.args[0]) for c in n.calls())]
+        for h in heads:
+            body0 = [m for k, m in h.succ if k == "t"]
+            r = g.reachable(body0, avoid_nodes=[h] + stat_nodes)
+            ctx.check(bool(stat_nodes) and not any(t in r for t in stale_tests), rule, f.short, "lock-restatted-every-iteration",
+                      message="staleness can be judged in an iteration that did not stat the lock again", how="stat of the lock file dominates the elapsed-time test within an iteration")
+        # (b) identity binding of the removal
+        for n, c in takeover:
+            bound = False
+            if self_attr(c.func) == "release":
+                bound = bool(c.args or c.keywords)  # observed identity handed over
+                callee = p.lookup_method(cls, "release")
+                if callee is not None and not bound:
+                    # or the removal routine re-validates what it renamed before unlinking it
+                    for x in own_nodes(callee.node):
+                        if isinstance(x, ast.Compare) and any(isinstance(y, ast.Attribute) and y.attr.startswith("st_") for y in ast.walk(x)):
+                            bound = True
+            else:
+                nxt = g.reachable([m for k, m in n.succ if NORMAL(n, k, m)])
+                bound = any(isinstance(x, ast.Compare) and any(isinstance(y, ast.Attribute) and y.attr.startswith("st_") for y in ast.walk(x))
+                            for m in nxt for x in m.walk())
+            ctx.check(bound, rule, f.short, "takeover-removes-by-path",
+                      message=f"{cls.name}.acquire removes the lock it judged stale by path ({norm(c)[:40]}): between the staleness test and the rename another waiter can "
+                              f"have removed the stale lock and created its own, which is then deleted - both waiters go on to acquire (two holders). "
+                              f"Needs: a dead holder, two waiters past the grace period, the second preempted between its test and its rename",
+                      how="the removal routine receives / re-validates the identity (st_mtime, st_ino) of the lock that was observed", where=where(f, c))
+    ctx.floor(rule, "lock_classes", n_cls, 2, exact=True)
+
+
 def rule_append_ordering(ctx, rule):
     """append_logs: write -> flush -> fsync in order before leaving the `with open` block; one
     write call per append, not in a loop."""
